@@ -35,6 +35,7 @@ struct KillGenOpts {
   bool bigNumbers = false; // sizes up to 2^62, Swap/MemTotal above 2^32
   bool fractionalArgs = false;
   double systemdP = 0.0;
+  double emptyOnFreezeP = 0.0; // kernelkill victims emptied at the freeze
   bool midTickEdits = false; // hook plans: cgroups re-created inside a tick
 };
 
@@ -415,6 +416,15 @@ inline Json::Value genKillPlan(Rng& rng, const KillGenOpts& o) {
         kill["pids"][std::to_string(p.asInt())]["e"] = ESRCH;
   plan["kill"] = kill;
   plan["clock_off"] = (Json::Int64)rng.range(0, 999999999);
+  if (o.emptyOnFreezeP > 0) {
+    bool kernel = false;
+    for (const auto& rs : plan["config"]["rulesets"])
+      for (const auto& a : rs["actions"])
+        kernel = kernel || a["args"].get("kernelkill", "").asString() == "true";
+    // the victim of a kernel kill loses its last process just as it is frozen
+    if (kernel && rng.chance(o.emptyOnFreezeP))
+      plan["empty_on_freeze"].append((int)rng.range(0, 2));
+  }
   return plan;
 }
 
@@ -425,6 +435,8 @@ struct Attempt {
   size_t begin = 0, end = 0; // event index range
   int signalsOk = 0, signalsTried = 0;
   bool kernel = false; // cgroup.kill written
+  bool kernelOnEmpty = false; // ... to a cgroup unpopulated all along
+  size_t freezeAt = 0; // event index of this attempt's cgroup.freeze=1
   bool dry = false;
   bool uuidSet = false;
 };
@@ -537,8 +549,18 @@ inline std::vector<Invocation> extractInvocations() {
         if (e.res == 0)
           cur->signalsOk++;
       }
-      if (e.kind == "cwrite" && e.a == "cgroup.kill" && e.res == 0)
-        cur->kernel = true;
+      if (e.kind == "cwrite" && e.a == "cgroup.freeze" && e.b == "1")
+        cur->freezeAt = k;
+      if (e.kind == "cwrite" && e.a == "cgroup.kill" && e.res == 0) {
+        // cgroup.kill written although cgroup.events has said "populated 0"
+        // ever since this attempt's freeze (or its start): nothing can have
+        // been killed, the attempt yields no signalled process
+        size_t since = cur->freezeAt ? cur->freezeAt : cur->begin;
+        if (e.n1 == 1 && (size_t)e.n2 <= since)
+          cur->kernelOnEmpty = true;
+        else
+          cur->kernel = true;
+      }
     }
     if (cur)
       cur->end = inv.end;
@@ -669,8 +691,35 @@ inline std::map<int, RankKey> refRank(World& W, const Invocation& inv,
           ((eff != cutA && fabsl(eff - cutA) < 1) ||
            (eff != cutB && fabsl(eff - cutB) < 1)))
         k.fuzzy = true;
-      if (fabsl(growth - minGrowth) < 1e-6L * std::max<ld>(1, minGrowth))
-        k.fuzzy = true;
+      if (fabsl(growth - minGrowth) < 1e-6L * std::max<ld>(1, minGrowth)) {
+        // ... unless usage / average is the configured ratio *exactly* (as
+        // rationals, whole-byte average): "ratios act at exactly the
+        // configured value", so that cgroup is a grower
+        bool exact = false;
+        {
+          std::string ms = argOr("min_growth_ratio", "1.25");
+          size_t dot = ms.find('.');
+          std::string digits = ms;
+          ld den = 1;
+          if (dot != std::string::npos) {
+            digits = ms.substr(0, dot) + ms.substr(dot + 1);
+            for (size_t q = dot + 1; q < ms.size(); q++)
+              den *= 10;
+          }
+          bool plain = !digits.empty() &&
+              digits.find_first_not_of("0123456789") == std::string::npos &&
+              digits.size() <= 9;
+          if (plain && avg == floorl(avg) && avg > 0 && avg < 0x1p52L &&
+              cur < 0x1p52L) {
+            ld num = strtold(digits.c_str(), nullptr);
+            exact = cur * den == avg * num;
+          }
+        }
+        if (!exact)
+          k.fuzzy = true;
+        else
+          probe("growth-exactly-at-min-ratio");
+      }
       if (sizeEl)
         k.key = {2, eff, 0};
       else if (growthEl)
